@@ -151,8 +151,8 @@ P("C08", module="AJ.Props.C08All", extra=[("AJ.Props.DocGen", ["C08"]), ("AJ.Pro
   suites=lambda tier: [S.MpSerSuite(cfg=DEF), S.SerBufSweep(cfg=DEF, fmt="mp", n=40 if tier == "quick" else 1500), S.MpSerSuite(cfg=G["len1"], n=300 if tier == "quick" else 20000)] +
   ([S.MpSerSuite(cfg=G["len4"], n=2000)] if tier == "thorough" else []))
 
-P("C09", module="AJ.Props.C09All", extra=[("AJ.Props.C09Gen", ["C09"]), ("AJ.Props.SlotCor2", ["C09"]), ("AJ.Props.C09", ["C09"]), ("AJ.Props.C09Prefix", ["C09"]), ("AJ.Props.C09Doc", ["C09"])],
-  level_text="C09.first_byte_dispatch_is_source_zero / _count: on each of the 256 first bytes followed by two fixed tails the model's code, consumption and document are those obtained on every run by calling the compiled deserializeMsgPack (translator tie, kernel evaluation of 512 runs). Theorems: every serialized document is accepted and decoded to the value it encodes with exact consumption (any trailing bytes); "
+P("C09", module="AJ.Props.C09All", extra=[("AJ.Props.DocGen", ["C09"]), ("AJ.Props.C09Gen", ["C09"]), ("AJ.Props.SlotCor2", ["C09"]), ("AJ.Props.C09", ["C09"]), ("AJ.Props.C09Prefix", ["C09"]), ("AJ.Props.C09Doc", ["C09"])],
+  level_text="C09.msgpack_read_back_is_source: on the MessagePack bytes of 44 documents the deserializer model leaves the document the compiled library leaves (translator tie). C09.first_byte_dispatch_is_source_zero / _count: on each of the 256 first bytes followed by two fixed tails the model's code, consumption and document are those obtained on every run by calling the compiled deserializeMsgPack (translator tie, kernel evaluation of 512 runs). Theorems: every serialized document is accepted and decoded to the value it encodes with exact consumption (any trailing bytes); "
   "C09.enc_accepts: every encoding of the syntactic predicate MD.Enc (any legal width at every place: fix/8/16/32 lengths and counts, bin, ext, fixext, nested containers, within the limits) is "
   "accepted, for every filter; prefix_classification / enc_prefix_classification / run_prefix_by_consumed: every proper prefix gives IncompleteInput (EmptyInput for the empty input) with the "
   "whole prefix consumed, for every filter, and a prefix that contains the first object of a sequence returns that object; reserved_code_at / non_string_key_at (and the any-width forms): 0xC1 "
